@@ -3,6 +3,7 @@ package props
 import (
 	"context"
 	"fmt"
+	"net/http"
 	"strings"
 	"testing"
 	"time"
@@ -13,6 +14,7 @@ import (
 
 	"verif/sim/model"
 	"verif/sim/rt"
+	"verif/sim/simkv"
 	"verif/sim/world"
 )
 
@@ -33,8 +35,18 @@ func genC18(r *rt.Rand, tier string, idx int) *world.Scenario {
 	} else {
 		sc.Class = "role-matrix"
 		sc.Extra["proxy"] = int64(idx % 2)
+		if idx%2 == 1 && (idx/2)%3 == 1 {
+			sc.Extra["proxy_down"] = 1 // the proxy has no connection to the leader
+			sc.Class = "role-matrix+proxy-unavailable"
+		}
 		sc.Extra["mode"] = int64(r.Intn(len(c18PeerModes)))
 		sc.Extra["prewrites"] = int64(1 + r.Intn(6))
+	}
+	if idx%12 == 7 {
+		// the leader's lock renewal hangs in the engine: it goes on believing it leads (and answering peers)
+		// while another node takes the lock over; a third node serves reads before and after
+		sc.Class = "deposed-leader-still-answering"
+		sc.Extra = map[string]int64{"deposed": 1, "prewrites": int64(1 + r.Intn(5)), "writes": int64(1 + r.Intn(5))}
 	}
 	if r.Chance(0.3) {
 		sc.Inactive = swarmSites(r, "kv.get", "kv.commit")
@@ -84,6 +96,7 @@ func c18Custom(t *testing.T, sc *world.Scenario, out *Outcome) {
 	pn.Fault = func(from int, host string) string { return mode }
 	ctx := context.Background()
 	var reads []*c18Read
+	curLeader := L // the node that holds the election lock
 	fWritesBefore := func() int {
 		n := 0
 		for _, e := range w.KV.GT {
@@ -95,7 +108,7 @@ func c18Custom(t *testing.T, sc *world.Scenario, out *Outcome) {
 	}
 	k := func(i int) string { return fmt.Sprintf("%s/k%d", prefix, i%4) }
 	doRead := func(sn *world.ServerNode, name, kind string) *c18Read {
-		r := &c18Read{kind: kind, node: name, inv: s.StepNo(), leaderCom: L.B.GetCurrentRevision(), mode: mode}
+		r := &c18Read{kind: kind, node: name, inv: s.StepNo(), leaderCom: curLeader.B.GetCurrentRevision(), mode: mode}
 		r.key, r.end = prefix+"/", prefix+"0"
 		switch kind {
 		case "brain.get":
@@ -234,7 +247,71 @@ func c18Custom(t *testing.T, sc *world.Scenario, out *Outcome) {
 	}
 	writeKinds := []string{"brain.create", "brain.update", "brain.delete", "brain.compact", "etcd.create", "etcd.update", "etcd.udelete"}
 	finished := false
-	if sc.Extra["concurrent"] == 0 {
+	if sc.Extra["deposed"] != 0 {
+		w.KV.LockKey = []byte(prefix + "/election")
+		G := w.AddServer(pn, proxyOn)
+		w.Idle(3*time.Second, 4000)
+		if G.LE.IsLeader() || F.LE.IsLeader() || !L.LE.IsLeader() {
+			out.Infra = "unexpected roles"
+			return
+		}
+		s.Go("deposed", -1, func() {
+			for i := 0; i < int(sc.Extra["prewrites"]); i++ {
+				doWrite(L, []string{"brain.create", "etcd.create", "brain.update"}[i%3])
+				s.Yield("matrix.step")
+			}
+			s.YieldIdle("matrix.idle")
+			// both standbys serve a read through the leader
+			for _, sn := range []*world.ServerNode{F, G} {
+				if r := doRead(sn, "F", "brain.range"); r.err != "" {
+					out.Inconclusive = "follower read failed before the leader change: " + r.err
+				}
+				s.Yield("matrix.step")
+			}
+			// the leader's next lock renewal stays in the engine for a minute
+			w.KV.Plan = append(w.KV.Plan, &simkv.Fault{Op: "commit", Class: "lock", Node: L.ID + 1, Nth: 1, Effect: "delay:60000"})
+			deadline := s.SimTime() + 25*time.Second
+			s.YieldUntil("deposed.wait", func() bool { return F.LE.IsLeader() || G.LE.IsLeader() || s.SimTime() > deadline })
+			newL, reader := F, G
+			if G.LE.IsLeader() {
+				newL, reader = G, F
+			}
+			if !newL.LE.IsLeader() {
+				out.Inconclusive = "no standby took over"
+				finished = true
+				return
+			}
+			// the other standby's elector observes the new record (it polls once a second)
+			until := s.SimTime() + 3*time.Second
+			s.YieldUntil("deposed.wait", func() bool { return s.SimTime() >= until })
+			// With one clock for all nodes the old leader gives up (renew deadline 5 s) and ends its process
+			// before the lease (8 s) lets anybody else in. A leader whose clock runs behind, or whose process was
+			// paused, goes on answering as leader for a while: that peer is scripted here - the old leader's
+			// address answers /status with the revision it had reached.
+			oldRev := L.B.GetCurrentRevision()
+			s.CrashNode(L.ID)
+			L.Status = http.HandlerFunc(func(rw http.ResponseWriter, _ *http.Request) {
+				out.probe("deposed-leader-was-asked")
+				rw.WriteHeader(200)
+				fmt.Fprintf(rw, `{"Revision":%d}`, oldRev)
+			})
+			curLeader = newL
+			for i := 0; i < int(sc.Extra["writes"]); i++ {
+				if err, _ := doWrite(newL, []string{"brain.create", "etcd.create", "brain.update"}[i%3]); err != nil {
+					out.violate(P, "leader-refused-write", "leader-refused-write", "the new leader refused a write: %v", err)
+				}
+				s.Yield("matrix.step")
+			}
+			s.YieldIdle("matrix.idle")
+			for _, kind := range readKinds {
+				if r := doRead(reader, "F", kind); r.err == "" {
+					out.probe("read-after-leader-change")
+				}
+				s.Yield("matrix.step")
+			}
+			finished = true
+		})
+	} else if sc.Extra["concurrent"] == 0 {
 		mode0 := c18PeerModes[sc.Extra["mode"]%int64(len(c18PeerModes))]
 		s.Go("matrix", -1, func() {
 			// some content, written through the leader
@@ -263,8 +340,24 @@ func c18Custom(t *testing.T, sc *world.Scenario, out *Outcome) {
 				before := fWritesBefore()
 				px, _ := F.Peers.(interface{ EtcdProxyEnabled() bool })
 				_ = px
+				proxyDown := proxyOn && sc.Extra["proxy_down"] != 0 && F.Proxy != nil
+				if proxyDown {
+					F.Proxy.Unavailable = true
+				}
 				err, ok := doWrite(F, kind)
 				proxied := proxyOn && strings.HasPrefix(kind, "etcd.")
+				if proxyDown {
+					F.Proxy.Unavailable = false
+					// the proxy has no connection to the leader: the write can only be refused
+					if fWritesBefore() != before {
+						out.violate(P, "follower-applied-write", "follower-applied-write kind="+kind+" proxy-unavailable", "the follower itself applied a write (%s) when its proxy could not reach the leader", kind)
+					} else if err == nil {
+						out.violate(P, "follower-write-not-rejected", "follower-write-not-rejected kind="+kind+" proxy-unavailable", "write %s on the follower returned ok=%v without an error although nothing could be forwarded", kind, ok)
+					}
+					out.probe("write-with-proxy-unavailable")
+					s.Yield("matrix.step")
+					continue
+				}
 				switch {
 				case fWritesBefore() != before:
 					out.violate(P, "follower-applied-write", "follower-applied-write kind="+kind, "the follower itself applied a write (%s)", kind)
